@@ -105,4 +105,26 @@ void h_SET_OF_decode_oer_chunked(void) {
 	SET_OF_free(&L_td, st1, ASFM_FREE_EVERYTHING); SET_OF_free(&L_td, st2, ASFM_FREE_EVERYTHING);
 }
 
+/* three chunks, the middle one empty (a caller that was woken up without new data): still the same result */
+void h_SET_OF_decode_oer_chunked3(void) {
+	VF_BYTES(buf, VF_N); VF_SCALAR(size_t, size); VF_SCALAR(size_t, k);
+	__CPROVER_assume(size <= VF_N && k <= size);
+	setup();
+	void *st1 = 0, *st2 = 0;
+	asn_dec_rval_t one = SET_OF_decode_oer(0, &L_td, 0, &st1, buf, size);
+	asn_dec_rval_t r1 = SET_OF_decode_oer(0, &L_td, 0, &st2, buf, k);
+	VF_CANARY();
+	if(r1.code == RC_WMORE) {
+		asn_dec_rval_t r0 = SET_OF_decode_oer(0, &L_td, 0, &st2, buf + r1.consumed, 0);
+		__CPROVER_assert(r0.code == RC_WMORE && r0.consumed == 0, "C05: a call without new data asks for more and consumes nothing");
+		asn_dec_rval_t r2 = SET_OF_decode_oer(0, &L_td, 0, &st2, buf + r1.consumed, size - r1.consumed);
+		__CPROVER_assert(r2.code == one.code, "C05: chunked decoding ends with the same return code as one-shot decoding");
+		if(one.code != RC_FAIL) {
+			__CPROVER_assert(r1.consumed + r2.consumed == one.consumed, "C05: chunked decoding consumes the same total");
+			if(one.code == RC_OK) __CPROVER_assert(L_eq((struct L *)st1, (struct L *)st2), "C05: chunked decoding yields the same value");
+		}
+	}
+	SET_OF_free(&L_td, st1, ASFM_FREE_EVERYTHING); SET_OF_free(&L_td, st2, ASFM_FREE_EVERYTHING);
+}
+
 VF_NATIVE_MAIN
